@@ -29,9 +29,9 @@ SpecV == InitV /\ [][NextV]_vars
 \* payload positions hidden by an explicit hide transform
 HiddenPos(d, dc) == {p \in ValidPos(d) : Dims[d].ids[p] \in dc.hide}
 
-RowOrder == AnchoredOrder(DimR, RowDC, HiddenPos(DimR, RowDC))
+RowOrder == IF ND >= 1 THEN AnchoredOrder(DimR, RowDC, HiddenPos(DimR, RowDC)) ELSE << >>
 ColOrder == IF ND >= 2 THEN AnchoredOrder(DimC, ColDC, HiddenPos(DimC, ColDC)) ELSE << >>
 
-RE == ElsOf(DimR, RowDC, RowOrder)
+RE == IF ND >= 1 THEN ElsOf(DimR, RowDC, RowOrder) ELSE << >>
 CE == IF ND >= 2 THEN ElsOf(DimC, ColDC, ColOrder) ELSE << >>
 =============================================================================
